@@ -173,6 +173,39 @@ def body_factory(tier, seed):
         for k_, v_ in cov.items():
             rep.coverage[k_] = v_
         rep.coverage["evaluations"] += cov.get("texts", 0) + cov.get("dumps_cases", 0)
+        # 3c. serialising is a function of the message's CURRENT fields: serialise, change a field (by assignment and
+        #     in place), serialise again -- the text must be the one a fresh message with those fields gets
+        for kind in ("call", "result", "error"):
+            for how in ("payload-assigned", "payload-in-place", "id", "unpacked-then-edited"):
+                if kind == "call":
+                    mk = lambda i, p: Call(i, "Heartbeat", p)
+                elif kind == "result":
+                    mk = lambda i, p: CallResult(i, p)
+                else:
+                    mk = lambda i, p: CallError(i, "GenericError", "d", p)
+                m = mk("m-1", {"a": 1})
+                first = pack(m)
+                if how == "unpacked-then-edited":
+                    from ocpp.messages import unpack
+                    m = unpack(first)
+                    pack(m)
+                attr = "error_details" if kind == "error" else "payload"
+                if how == "id":
+                    m.unique_id = "m-2"
+                    want = mk("m-2", {"a": 1})
+                elif how == "payload-in-place" or how == "unpacked-then-edited":
+                    getattr(m, attr)["b"] = [2.5, None]
+                    want = mk("m-1", {"a": 1, "b": [2.5, None]})
+                else:
+                    setattr(m, attr, {"z": "new"})
+                    want = mk("m-1", {"z": "new"})
+                rep.count("repack:%s:%s" % (kind, how))
+                got, exp = pack(m), pack(want)
+                if got != exp:
+                    rep.violation("C08:stale-text:%s:%s" % (kind, how),
+                                  "a %s serialised again after its %s changed is written as %r, a fresh message with the same fields as %r" % (
+                                      kind, how, got[:120], exp[:120]),
+                                  {"kind": "repack", "message_kind": kind, "how": how, "text": got, "expected": exp})
         if not support_ok:
             return
         # 4. the model on the same inputs
@@ -234,5 +267,29 @@ def replay(d):
         ok = esc is None and k == want
         print("HOLDS" if ok else "FAILS")
         return 0 if ok else 1
+    if d.get("kind") == "repack":
+        from ocpp.messages import Call, CallError, CallResult, pack, unpack
+        kind, how = d["message_kind"], d["how"]
+        mk = {"call": lambda i, p: Call(i, "Heartbeat", p), "result": lambda i, p: CallResult(i, p),
+              "error": lambda i, p: CallError(i, "GenericError", "d", p)}[kind]
+        m = mk("m-1", {"a": 1})
+        first = pack(m)
+        if how == "unpacked-then-edited":
+            m = unpack(first)
+            pack(m)
+        attr = "error_details" if kind == "error" else "payload"
+        if how == "id":
+            m.unique_id = "m-2"
+            want = mk("m-2", {"a": 1})
+        elif how in ("payload-in-place", "unpacked-then-edited"):
+            getattr(m, attr)["b"] = [2.5, None]
+            want = mk("m-1", {"a": 1, "b": [2.5, None]})
+        else:
+            setattr(m, attr, {"z": "new"})
+            want = mk("m-1", {"z": "new"})
+        got, exp = pack(m), pack(want)
+        print("serialised again:", got, "| fresh message:", exp)
+        print("HOLDS" if got == exp else "FAILS")
+        return 0 if got == exp else 1
     print("re-run: python3 check.py C08 quick")
     return 0
